@@ -118,69 +118,11 @@ def rule_reinject(check, cx, cm, rule):
                    'snapshot such as list(self.queue)): the remaining datapoints are lost uncounted' % fn.name)
 
 
-def run(check):
-  cx = Ctx(check)
-  cm = ClientModel(cx)
+def rule_sent(check, cx, cm, r_s):
+  """every batch taken from the queue is sent whole, by the live connection, when not paused (shared with C15)."""
   repo = check.repo
   T = check.types
   fac, pro = cm.factory, cm.protocol
-  check.explanation = (
-    'Ownership and path rules over carbon.client: the deque of a CarbonClientFactory is only touched through FIFO '
-    'operations (append / popleft; appendleft only for self-metrics; clear only after full re-injection); every batch '
-    'taken from the queue is passed whole to the connection\'s send routine, which only the live connection reaches; '
-    'enqueueing is dominated by a size test against the hard limit; exactly one of enqueue / counted drop per datapoint; '
-    'stopConnecting only from the queue-empty callback. Structural clauses, for every sequence of events.')
-  check.not_decided = ['behaviour of a Twisted transport that is closing', 'duplicates across replicas after re-injection',
-                       'timer ordering']
-  check.trusted_base = ['collections.deque', 'twisted Deferred / reactor.callLater']
-  for m in list(fac.methods.values()) + list(pro.methods.values()):
-    check.analysed(m)
-
-  # ------------------------------------------------------------------ FIFO ownership
-  r_f = check.rule('R-C07-fifo', 5, 'the queue is only touched through FIFO operations in their owners')
-  for op in cm.ops:
-    top = cm.top_method(op.fn)
-    where = top.qualname
-    if op.op == 'rebind':
-      if top.name == '__init__':
-        r_f.ok('queue created in __init__', op.fn.loc(op.node))
-      else:
-        r_f.violate('queue replaced', op.fn, op.node, 'the send queue object is replaced in %s: datapoints queued in the old '
-                    'deque are lost' % where)
-    elif op.op == 'append':
-      r_f.ok('append (tail) in %s' % where, op.fn.loc(op.node))
-    elif op.op == 'popleft':
-      r_f.ok('popleft (head) in %s' % where, op.fn.loc(op.node))
-    elif op.op == 'appendleft':
-      # reachable only from the self-metrics entry point
-      callers = _callers_of(cx, top)
-      names = {c.name for c in callers}
-      if names <= {'sendHighPriorityDatapoint'} and names:
-        r_f.ok('appendleft only via sendHighPriorityDatapoint (self-metrics jump the queue)', op.fn.loc(op.node))
-      else:
-        r_f.violate('appendleft reachable from ordinary traffic', op.fn, op.node, 'datapoints are put at the head of the send '
-                    'queue from %s: arrival order is not kept' % (sorted(names) or where))
-    elif op.op == 'clear':
-      r_f.ok('clear in %s (re-injection checked by R-C07-reinject)' % where, op.fn.loc(op.node))
-    else:
-      r_f.violate('non-FIFO queue operation', op.fn, op.node, '`%s` removes or reorders queue elements other than at the '
-                  'head: arrival order / exactly-once delivery is not kept' % short(op.node))
-  # takeSomeFromQueue returns what it popped, in pop order
-  tq = fac.methods.get('takeSomeFromQueue')
-  if tq is None:
-    r_f.cannot_decide('takeSomeFromQueue not found')
-  else:
-    from ..clientmodel import BatchShape
-    bs = BatchShape(cx, tq)
-    if not bs.problems:
-      r_f.ok('takeSomeFromQueue returns exactly the popped items, in order', tq.loc())
-    else:
-      for node, msg in bs.problems[:3]:
-        r_f.violate('batch differs from what was popped', tq, node, 'takeSomeFromQueue does not return the list of the items it popped '
-                    'from the head of the queue, in pop order: %s' % msg)
-
-  # ------------------------------------------------------------------ popped = sent, through the live connection
-  r_s = check.rule('R-C07-sent', 3, 'every batch taken from the queue is sent whole, by the live connection, when not paused')
   take_sites = []
   for f in repo.all_functions():
     for c in [n for n in walk_no_nested(f.node, include_self=False) if isinstance(n, ast.Call)]:
@@ -265,6 +207,97 @@ def run(check):
           r_s.ok('the deferred send is bound to the factory (resolved at fire time)', sched.loc(c))
     if not cbs:
       r_s.cannot_decide('scheduleSend no longer arms reactor.callLater')
+
+
+def run(check):
+  cx = Ctx(check)
+  cm = ClientModel(cx)
+  repo = check.repo
+  T = check.types
+  fac, pro = cm.factory, cm.protocol
+  check.explanation = (
+    'Ownership and path rules over carbon.client: the deque of a CarbonClientFactory is only touched through FIFO '
+    'operations (append / popleft; appendleft only for self-metrics; clear only after full re-injection); every batch '
+    'taken from the queue is passed whole to the connection\'s send routine, which only the live connection reaches; '
+    'enqueueing is dominated by a size test against the hard limit; exactly one of enqueue / counted drop per datapoint; '
+    'stopConnecting only from the queue-empty callback. Structural clauses, for every sequence of events.')
+  check.not_decided = ['behaviour of a Twisted transport that is closing', 'duplicates across replicas after re-injection',
+                       'timer ordering']
+  check.trusted_base = ['collections.deque', 'twisted Deferred / reactor.callLater']
+  for m in list(fac.methods.values()) + list(pro.methods.values()):
+    check.analysed(m)
+
+  # ------------------------------------------------------------------ FIFO ownership
+  r_f = check.rule('R-C07-fifo', 5, 'the queue is only touched through FIFO operations in their owners')
+  for op in cm.ops:
+    top = cm.top_method(op.fn)
+    where = top.qualname
+    if op.op == 'rebind':
+      if top.name == '__init__':
+        r_f.ok('queue created in __init__', op.fn.loc(op.node))
+      else:
+        r_f.violate('queue replaced', op.fn, op.node, 'the send queue object is replaced in %s: datapoints queued in the old '
+                    'deque are lost' % where)
+    elif op.op == 'append':
+      r_f.ok('append (tail) in %s' % where, op.fn.loc(op.node))
+    elif op.op == 'popleft':
+      r_f.ok('popleft (head) in %s' % where, op.fn.loc(op.node))
+    elif op.op == 'appendleft':
+      # reachable only from the self-metrics entry point
+      callers = _callers_of(cx, top)
+      names = {c.name for c in callers}
+      if names <= {'sendHighPriorityDatapoint'} and names:
+        r_f.ok('appendleft only via sendHighPriorityDatapoint (self-metrics jump the queue)', op.fn.loc(op.node))
+      else:
+        r_f.violate('appendleft reachable from ordinary traffic', op.fn, op.node, 'datapoints are put at the head of the send '
+                    'queue from %s: arrival order is not kept' % (sorted(names) or where))
+    elif op.op == 'clear':
+      r_f.ok('clear in %s (re-injection checked by R-C07-reinject)' % where, op.fn.loc(op.node))
+    else:
+      r_f.violate('non-FIFO queue operation', op.fn, op.node, '`%s` removes or reorders queue elements other than at the '
+                  'head: arrival order / exactly-once delivery is not kept' % short(op.node))
+  # takeSomeFromQueue returns what it popped, in pop order
+  tq = fac.methods.get('takeSomeFromQueue')
+  if tq is None:
+    r_f.cannot_decide('takeSomeFromQueue not found')
+  else:
+    from ..clientmodel import BatchShape
+    bs = BatchShape(cx, tq)
+    if not bs.problems:
+      r_f.ok('takeSomeFromQueue returns exactly the popped items, in order', tq.loc())
+    else:
+      for node, msg in bs.problems[:3]:
+        r_f.violate('batch differs from what was popped', tq, node, 'takeSomeFromQueue does not return the list of the items it popped '
+                    'from the head of the queue, in pop order: %s' % msg)
+
+  # ------------------------------------------------------------------ popped = sent, through the live connection
+  r_s = check.rule('R-C07-sent', 3, 'every batch taken from the queue is sent whole, by the live connection, when not paused')
+  rule_sent(check, cx, cm, r_s)
+
+  # ------------------------------------------------------------------ counted drops reach the reported statistics
+  r_cw = check.rule('R-C07-counter-window', 1, 'a drop counted while the statistics are being reported is not wiped: the counters are '
+                    'copied and cleared in one step, before anything is reported')
+  rm = repo.func('carbon.instrumentation', 'recordMetrics')
+  check.analysed(rm)
+  grm = cx.cfg(rm)
+  copies = [n for n in grm.nodes if n.kind == 'stmt' and isinstance(n.ast, ast.Assign) and isinstance(n.ast.value, ast.Call) and
+            isinstance(n.ast.value.func, ast.Attribute) and n.ast.value.func.attr == 'copy' and dotted(n.ast.value.func.value) == 'stats']
+  clears = [n for n in grm.nodes if n.kind == 'stmt' and any(isinstance(c.func, ast.Attribute) and c.func.attr == 'clear' and
+                                                                dotted(c.func.value) == 'stats' for c in grm.calls(n))]
+  if len(copies) != 1 or len(clears) != 1:
+    r_cw.cannot_decide('recordMetrics: expected one `stats.copy()` and one `stats.clear()`, found %d / %d' % (len(copies), len(clears)))
+  else:
+    # nothing that can call into the pipeline (and so count a drop into the live dict) runs between the copy and the clear
+    between = [n for n in grm.reach(grm.after(copies[0], normal_only=True), removed_nodes={clears[0]}, normal_only=True)
+               if n.kind in ('stmt', 'test') and n.ast is not None and n is not copies[0] and list(grm.calls(n))]
+    if between:
+      r_cw.violate('counters cleared late', rm, between[0].ast, '`%s` (and %d more statement(s) with calls) run between `stats.copy()` and '
+                   '`stats.clear()`: reporting the relay\'s own metrics goes through the send queues, and a drop counted there while '
+                   'recordMetrics runs is wiped by the late clear() before any period reports it' % (short(between[0].ast), len(between) - 1))
+    elif clears[0] not in grm.reach(grm.after(copies[0], normal_only=True), normal_only=True):
+      r_cw.violate('counters never cleared after the copy', rm, clears[0].ast, 'stats.clear() does not follow stats.copy()')
+    else:
+      r_cw.ok('stats copied and cleared back to back', rm.loc(copies[0].ast))
 
   # ------------------------------------------------------------------ bound / drop accounting
   r_b = check.rule('R-C07-bound', 2, 'ordinary datapoints are enqueued only below the hard limit')
@@ -506,6 +539,7 @@ def run(check):
       r_e.violate('disconnect without queue check', dis, None, 'CarbonClientFactory.disconnect can return without calling '
                   'checkQueue(): an already empty queue never triggers the stop', construct='self.checkQueue()')
   # every successful send re-checks for emptiness
+  sdn = pro.methods.get('sendDatapointsNow')
   if sdn is not None:
     g = cx.cfg(sdn)
     cqs = nodes_calling(g, lambda k: cm.calls_factory_method(k, sdn, 'checkQueue'))
